@@ -18,23 +18,14 @@ namespace Lcapy.DT
 section
 variable {K : Type} [Add K] [Mul K] [Neg K] [Sub K] [Div K] [OfNat K 0] [OfNat K 1]
 
-/-- `(cos(b n), sin(b n))` from `(cos b, sin b)` by the angle-addition formulas -/
-def rotPow (cb sb : K) : Nat → K × K
-  | 0 => (1, 0)
-  | n + 1 => ((rotPow cb sb n).1 * cb - (rotPow cb sb n).2 * sb,
-              (rotPow cb sb n).2 * cb + (rotPow cb sb n).1 * sb)
-
-/-- `(cos(b n), sin(b n))` for any integer n -/
-def rotZ (cb sb : K) : Int → K × K
-  | .ofNat n => rotPow cb sb n
-  | .negSucc n => rotPow cb (-sb) (n + 1)
-
 def Base.val : Base K → Int → K
   | .imp d, n => if n = d then 1 else 0
   | .step d, n => if d ≤ n then 1 else 0
   | .one, _ => 1
   | .cos cb sb cc sc, n => (rotZ cb sb n).1 * cc - (rotZ cb sb n).2 * sc
   | .sin cb sb cc sc, n => (rotZ cb sb n).2 * cc + (rotZ cb sb n).1 * sc
+  | .gated isSin true g cb sb cc sc, n => trigVal isSin cb sb cc sc n * (if n = g then 1 else 0)
+  | .gated isSin false g cb sb cc sc, n => trigVal isSin cb sb cc sc n * (if g ≤ n then 1 else 0)
 
 /-- `coef * n^p * a^n * base[n]` -/
 def CTerm.val (t : CTerm K) (n : Int) : K :=
@@ -46,6 +37,12 @@ def sigVal (ts : List (CTerm K)) (n : Int) : K :=
 /-- finite literal sequence `vals` whose first element has index `n0`; zero elsewhere -/
 def litVal (vals : List K) (n0 : Int) (n : Int) : K :=
   if n0 ≤ n then vals.getD (n - n0).toNat 0 else 0
+
+/-- `Σ_{n=lo}^{lo+len-1} x[n] q^n` — the defining (bilateral) DTFT sum of a sequence supported in that
+    window, at `q = e^{-jΩ}` -/
+def dtftSum (x : Int → K) (q : K) (lo : Int) : Nat → K
+  | 0 => 0
+  | len + 1 => dtftSum x q lo len + x (lo + Int.ofNat len) * zpowK q (lo + Int.ofNat len)
 
 /-- `Σ_{n<N} x[n] q^n` -/
 def dftSum (x : Nat → K) (q : K) : Nat → K
